@@ -40,7 +40,7 @@ Step(S, e) ==
     [] e.op = "AddBond"  -> <<CanAddBond(o, e.a[1], e.a[2]), [S EXCEPT ![e.o] = DoAddBond(o, e.a[1], e.a[2], e.a[3])]>>
     [] e.op = "DelBond"  -> <<CanDelBond(o, e.a[1], e.a[2]), [S EXCEPT ![e.o] = DoDelBond(o, e.a[1], e.a[2])]>>
     [] e.op = "DelAtom"  -> <<CanDelAtom(o, e.a[1]), [S EXCEPT ![e.o] = DoDelAtom(o, e.a[1])]>>
-    [] e.op = "Read"     -> <<CanRead(o), [S EXCEPT ![e.o] = DoRead(o, e.a[1])]>>
+    [] e.op = "Read"     -> <<CanRead(o, e.a[1]), [S EXCEPT ![e.o] = DoRead(o, e.a[1])]>>
     [] e.op = "Begin"    -> <<CanBegin(o), [S EXCEPT ![e.o] = DoBegin(o)]>>
     [] e.op = "SetCharge" -> <<CanSet(o, e.a[1]), [S EXCEPT ![e.o] = DoSetCharge(o, e.a[1], e.a[2])]>>
     [] e.op = "SetRadical" -> <<CanSet(o, e.a[1]), [S EXCEPT ![e.o] = DoSetRadical(o, e.a[1], ~o.rad[e.a[1]])]>>
